@@ -47,8 +47,9 @@ def fld(name: str) -> Any:
 def _kinds() -> List[dict]:
     K: List[dict] = []
 
-    def add(name, typ, build, root="parent", tags=(), sentinel=None):
-        K.append({"name": name, "type": typ, "build": build, "root": root, "tags": set(tags), "sentinel": sentinel})
+    def add(name, typ, build, root="parent", tags=(), sentinel=None, sentinel_text=None):
+        K.append({"name": name, "type": typ, "build": build, "root": root, "tags": set(tags), "sentinel": sentinel,
+                  "sentinel_text": sentinel_text})
 
     add("integer", NUM, lambda s, n: ast.Integer(str(n)), sentinel="7013")
     add("float", NUM, lambda s, n: ast.Float(str(n) + ".5"), sentinel="7013.5")
@@ -61,6 +62,11 @@ def _kinds() -> List[dict]:
     add("datetime-min-offset", DT_, lambda s, n: ast.DateTime("0001-01-01T00:00:00+01:00"), sentinel="0001")
     add("datetime-max-offset", DT_, lambda s, n: ast.DateTime("9999-12-31T23:59:59.999999-01:00"), sentinel="9999")
     add("date-min", DATE_, lambda s, n: ast.Date("0001-01-01"), sentinel="0001")
+    # more fractional digits than a Python datetime holds: the text dialects carry the literal verbatim (7 digits), the ORM
+    # backends go through datetime (microseconds: the first 6 digits)
+    add("datetime-frac7", DT_, lambda s, n: ast.DateTime("2031-07-19T21:43:59.1234567Z"), sentinel="123456", sentinel_text="1234567")
+    add("time-frac7", TIME_, lambda s, n: ast.Time("21:43:59.1234567"), sentinel="123456", sentinel_text="1234567")
+    add("datetime-leap-day", DT_, lambda s, n: ast.DateTime("2032-02-29T23:59:59.5-00:30"), sentinel="2032")
     add("duration", DUR, lambda s, n: ast.Duration("P41DT7H"), sentinel="41")
     add("guid", GUID_, lambda s, n: ast.GUID("6c0e37e3-e856-45ee-bd58-484b11882c67"), sentinel="6c0e37e3")
     add("geography", GEO, lambda s, n: ast.Geography("POINT(1 2)"))
@@ -335,11 +341,12 @@ def _complete(bi: int, ki: int, pi: int) -> Optional[str]:
     digits = "".join(c for c in text if c.isdigit())
     missing = [f for f in fields if f.lower() not in low] + [v for v in strings if v and v not in text] + \
               [v for v in ints if v.lstrip("+-") not in text]
-    if k["sentinel"] and k["sentinel"] not in text:
-        sd = "".join(c for c in k["sentinel"] if c.isdigit())
-        alt = "".join(str(int(x)) for x in k["sentinel"].replace(":", "-").split("-") if x.isdigit())   # 2031-07-19 -> 2031719
+    sent = (k.get("sentinel_text") if b["text"] else None) or k["sentinel"]
+    if sent and sent not in text:
+        sd = "".join(c for c in sent if c.isdigit())
+        alt = "".join(str(int(x)) for x in sent.replace(":", "-").split("-") if x.isdigit())   # 2031-07-19 -> 2031719
         if not sd or (sd not in digits and alt not in digits):
-            missing.append(k["sentinel"])
+            missing.append(sent)
     return ("missing " + ", ".join(sorted(missing)) + " in " + text[:120]) if missing else None
 
 
@@ -426,6 +433,9 @@ def _core_froms() -> List[tuple]:
             ("core-subquery", sa.select(p).subquery()), ("core-alias", p.alias("pp"))]
 
 
+N_UNKNOWN_SHAPES = 12
+
+
 def check_unknown(which: int, ni: int, shape: int) -> bool:
     from ..models import sa as samodels
     from odata_query.sqlalchemy.core import AstToSqlAlchemyCoreVisitor
@@ -434,7 +444,15 @@ def check_unknown(which: int, ni: int, shape: int) -> bool:
     node = [ast.Compare(ast.Eq(), I(name), ast.Integer("1")),
             ast.Call(I("tolower"), [I(name)]),
             ast.BinOp(ast.Add(), I(name), ast.Integer("1")),
-            ast.Compare(ast.In(), I(name), ast.List([ast.Integer("1")]))][shape]
+            ast.Compare(ast.In(), I(name), ast.List([ast.Integer("1")])),
+            ast.Call(I("contains"), [I(name), ast.String("")]),            # degenerate arguments must not let the field go unvisited
+            ast.Call(I("endswith"), [I(name), ast.String("a")]),
+            ast.Compare(ast.Eq(), I(name), ast.Null()),
+            ast.Compare(ast.Eq(), ast.Null(), I(name)),
+            ast.BoolOp(ast.Or(), ast.Boolean("true"), ast.Compare(ast.Eq(), I(name), ast.Integer("1"))),
+            ast.Call(I("startswith"), [ast.String(""), I(name)]),
+            ast.Compare(ast.In(), ast.Integer("1"), ast.List([I(name)])),
+            ast.Compare(ast.In(), I(name), ast.List([]))][shape]
     if which == 0:
         vis = AstToSqlAlchemyOrmVisitor(samodels.Parent)
     elif which == 1:
@@ -613,7 +631,7 @@ def main() -> int:
     for which, wn in [(0, "orm"), (1, "core")] + [(2 + j, nm) for j, (nm, _fo) in enumerate(CORE_FROMS)]:
         for lo in range(0, nn, nchunk):
             hi = min(nn, lo + nchunk)
-            items.append(Item(f"unk_{wn.replace(chr(45), chr(95))}_{lo}", "ni: int, shape: int", f"{lo} <= ni < {hi} and 0 <= shape < {2 if quick else 4}",
+            items.append(Item(f"unk_{wn.replace(chr(45), chr(95))}_{lo}", "ni: int, shape: int", f"{lo} <= ni < {hi} and 0 <= shape < {N_UNKNOWN_SHAPES}",
                               f"check_unknown({which}, ni, shape)", describe={"backend": "sa_" + wn, "names": NAMES[lo:hi]},
                               family="unknown-field:" + wn))
     for it in items[:3]:
